@@ -42,6 +42,7 @@ def run(ctx):
                 trunc.append(enc.Case(c.fam + '/alltrunc', c.op, c.buf[:p], [], None))
     common.run_differential(ctx, trunc, common.proj_trunc,
                             classify=lambda c, r: 'a strict prefix of the structure must not yield a value' if r.startswith('ok ') else None)
+    common.run_cg(ctx, ('dh ', 'ec_params ', 'ecdh ', 'named_groups ', 'dsig', 'content_sig '), common.proj_trunc)
     common.lean_failure_violation(ctx, ok)
     return ctx.finish(LEVEL,
         rule='ServerDHParams / ECParameters (named and explicit-prime) / ServerECDHParams / DigitallySigned (both forms) / parse_content_and_signature (both flag values) / named groups: independent-encoder values with boundary field lengths (exact), suffixes, corruptions (differential), all 256 curve types (class: rejected with an error unless 1 or 3), named groups swept, strict prefixes (class: never a value; model and implementation must agree on asking for more input vs rejecting - the quantifier of the property names truncations); signatures that are well-formed under both readings (the flag alone decides); distinct = (family, outcome shape)',
